@@ -88,3 +88,24 @@ impl ValStack {
 pub struct CallContext { pub stack: ValStack }
 #[verifier::external_body]
 pub fn from_value(vm: &Thread, v: &StackValue) -> RetValue { unimplemented!() }
+
+// ---- Thread::interrupted(): the poll itself.  `interrupt: AtomicBool`; only `load` reads without writing.
+pub enum Ordering { Relaxed, Acquire, Release, AcqRel, SeqCst }
+#[verifier::external_body] pub struct AtomicBool { _p: () }
+pub uninterp spec fn flag(a: AtomicBool) -> bool;
+// frame condition of a poll: it may not WRITE the flag (a poll that consumes the request hides it from every later poll:
+// the handler of the first Interrupted error, an enclosing thread ..)
+pub closed spec fn poll_may_write() -> bool { false }
+impl AtomicBool {
+    #[verifier::external_body]
+    pub fn load(&self, order: Ordering) -> (r: bool) ensures r == flag(*self) { unimplemented!() }
+    #[verifier::external_body]
+    pub fn swap(&self, v: bool, order: Ordering) -> (r: bool) requires poll_may_write() ensures r == flag(*self) { unimplemented!() }
+    #[verifier::external_body]
+    pub fn store(&self, v: bool, order: Ordering) requires poll_may_write() { unimplemented!() }
+    #[verifier::external_body]
+    pub fn fetch_and(&self, v: bool, order: Ordering) -> (r: bool) requires poll_may_write() ensures r == flag(*self) { unimplemented!() }
+    #[verifier::external_body]
+    pub fn compare_exchange(&self, cur: bool, new: bool, s: Ordering, f: Ordering) -> (r: Result<bool, bool>) requires poll_may_write() { unimplemented!() }
+}
+pub struct ThreadFlags { pub interrupt: AtomicBool }
